@@ -50,12 +50,36 @@ impl Check for C08 {
     }
     fn strategy(&self, _tier: Tier) -> BoxedStrategy<Case> {
         let c = cfg();
-        (ga::shaped_program(&c, 1), g::raw_interp(5, 0, 3, 6))
-            .prop_map(|(program, raw)| Case { program, raw })
+        // one program in six: a variable of the first rule is bounded from both sides, by a numeral, an
+        // arithmetic term or another plain variable (`X >= 1, X <= N`): bounds say nothing about the sort
+        // of the bounded variable - the order is total over numbers, symbols, #inf and #sup
+        (ga::shaped_program(&c, 1), g::raw_interp(5, 0, 3, 6), 0u8..6, proptest::collection::vec(any::<u8>(), 4))
+            .prop_map(|(mut program, raw, bounded, k)| {
+                if bounded == 0 {
+                    let r = &mut program.rules[0];
+                    let mut vars: Vec<String> = r.variables().into_iter().map(|v| v.0).collect();
+                    vars.sort();
+                    if !vars.is_empty() {
+                        let x = vars[k[0] as usize % vars.len()].clone();
+                        let other = vars[k[1] as usize % vars.len()].clone();
+                        let bound = |sel: u8| -> asp::Term {
+                            match sel % 4 {
+                                0 => ga::num((sel / 4) as isize % 4),
+                                1 => ga::binop(asp::BinaryOperator::Add, ga::var(&other), ga::num(1)),
+                                _ => ga::var(if other == x { "N" } else { &other }),
+                            }
+                        };
+                        let (lo, hi) = if k[0] % 2 == 0 { (asp::Relation::GreaterEqual, asp::Relation::LessEqual) } else { (asp::Relation::Greater, asp::Relation::Less) };
+                        r.body.formulas.push(asp::AtomicFormula::Comparison(asp::Comparison { relation: lo, lhs: ga::var(&x), rhs: bound(k[2]) }));
+                        r.body.formulas.push(asp::AtomicFormula::Comparison(asp::Comparison { relation: hi, lhs: ga::var(&x), rhs: bound(k[3]) }));
+                    }
+                }
+                Case { program, raw }
+            })
             .boxed()
     }
     fn rule(&self) -> String {
-        "random program of 1-3 rules mixing regular and irregular shapes (variables inside and outside arithmetic, intervals in heads / right of = / elsewhere, symbols and #inf/#sup next to arithmetic, choice heads with intervals, variables named N0 N1 N0_0) x an interpretation (H subset-of T) that is random (extents contain symbols, #inf and #sup at every argument position) or guided (T = closure of the program over random atoms, usually minus one atom; H = T or T minus one atom); oracle: mu() never panics and each of its formulas has the same exact HT truth value as the tau* formula of the same rule; each rule alone, if natural() accepts it, likewise (and agrees with the reference semantics of the rule); the printed mu / natural theory (what `translate` shows) reads back as the translation; non-trivial = the rule is accepted by natural, fires in T and the verdicts are definite; labels = regular/irregular, operator classes".into()
+        "random program of 1-3 rules mixing regular and irregular shapes (variables inside and outside arithmetic, intervals in heads / right of = / elsewhere, symbols and #inf/#sup next to arithmetic, choice heads with intervals, variables named N0 N1 N0_0; one program in six bounds a variable from both sides by numerals, arithmetic terms or plain variables) x an interpretation (H subset-of T) that is random (extents contain symbols, #inf and #sup at every argument position) or guided (T = closure of the program over random atoms, usually minus one atom; H = T or T minus one atom); oracle: mu() never panics and each of its formulas has the same exact HT truth value as the tau* formula of the same rule; each rule alone, if natural() accepts it, likewise (and agrees with the reference semantics of the rule); the printed mu / natural theory (what `translate` shows) reads back as the translation; non-trivial = the rule is accepted by natural, fires in T and the verdicts are definite; labels = regular/irregular, operator classes".into()
     }
     fn run(&self, case: &Case) -> Outcome {
         if case.program.rules.is_empty() {
